@@ -53,6 +53,12 @@ SCEN = [
     ('class', '\\documentclass[ngerman]{scrartcl}\\usepackage{babel}A "o \\KOMAoption{x}B',
      {'dcls': 'scrartcl', 'lang': 'ru'}, False),
     ('error', 'A $x \\textbf{B', {'nosp': True, 'seqs': True}, False),
+    ('cref_a', '\\usepackage[poorman]{cleveref}\\YYCleverefInput{/verif/vf/data/a.sed}A \\cref{eq:1} B '
+               '\\Cref{sec:intro} C', {'pack': 'cleveref'}, False),
+    ('cref_b', '\\usepackage[poorman]{cleveref}\\YYCleverefInput{/verif/vf/data/b.sed}A \\cref{eq:2} B '
+               '\\cref{eq:1} C \\Cref{sec:intro} D', {'pack': 'cleveref'}, False),
+    ('addmods', '\\documentclass{article}\\usepackage{xcolor,amsthm}A \\textcolor{red}{B} '
+                '\\begin{proof}C\\end{proof}', {}, False),
 ]
 
 
